@@ -1127,6 +1127,14 @@ class Engine:
                 results.append(s)
                 continue
             f = s.frames[-1]
+            if name.startswith("llvm.experimental.noalias") or name.startswith("llvm.dbg") or \
+                    name.startswith("llvm.lifetime") or name.startswith("llvm.invariant"):
+                if ins.op == "invoke":
+                    self.goto(s, f, ins.extra[1])
+                else:
+                    f.ip += 1
+                results.append(s)
+                continue
             args = [self.val(f, a) for a in ins.args]
             if name in self.stubs:
                 outs = self.stubs[name](self, s, args, ins)
